@@ -27,6 +27,7 @@ var Registry = map[string]func(Tier) int{
 	"C08": C08,
 	"C09": C09,
 	"C10": C10,
+	"C19": C19,
 }
 
 // Systems used by `pcheck replay` to re-execute graph replays by name.
